@@ -323,13 +323,12 @@ def list_routing(idx: ProgramIndex, rep: Report, clsname: str, member_attr: str,
                         pass
                     elif isinstance(a, ast.Name) and a.id not in names:
                         probs.append("positional argument `%s` is shared by all members instead of being zipped" % a.id)
-                # per-member extras (third zip operand) must be forwarded as keyword
-                for extra in names[2:]:
-                    used_kw = False
-                    for k in elt.keywords:
-                        if any(isinstance(x, ast.Name) and x.id == extra for x in ast.walk(k.value)):
-                            used_kw = True
-                    if not used_kw:
-                        probs.append("per-member value `%s` is not forwarded as a keyword argument" % extra)
+                # every zipped per-member value must be forwarded to the member (starred positional, ** mapping or keyword value)
+                for extra in names[1:]:
+                    used = any(isinstance(a, ast.Starred) and isinstance(a.value, ast.Name) and a.value.id == extra for a in elt.args) \
+                        or any(isinstance(a, ast.Name) and a.id == extra for a in elt.args) \
+                        or any(any(isinstance(x, ast.Name) and x.id == extra for x in ast.walk(k.value)) for k in elt.keywords)
+                    if not used:
+                        probs.append("per-member value `%s` is zipped but not forwarded to the member" % extra)
             rep.add(rule, inst, "%s:%d" % (fi.module.relpath, comp.lineno), not probs, "member i <-> argument tuple i, keywords forwarded with **" if not probs else "; ".join(probs), {})
     rep.floor(rule, "%s delegating comprehensions" % clsname, n, floor)
